@@ -45,14 +45,24 @@ def call_cases(draw, tier):
     spec = draw(gen.diagrams("cartesian", max_boxes=8 if tier == "thorough"
                              else 6, max_width=5, max_dom=4))
     return {"d": spec, "route": draw(st.sampled_from(["ctor", "whisker"])),
-            "short": draw(st.booleans())}
+            "short": draw(st.booleans()),
+            "vals": draw(st.lists(st.sampled_from(
+                ["x", "x", "x", None, 0, 2.5]), min_size=4, max_size=4))}
+
+
+def input_values(n, kinds, prefix="x"):
+    """ Input i is the string "x<i>" unless the case asks for another Python
+    value there (None, a number): any value may travel on a wire. """
+    kinds = list(kinds or []) + ["x"] * n
+    return tuple("%s%d" % (prefix, i) if kinds[i] == "x" else kinds[i]
+                 for i in range(n))
 
 
 def check_call(case):
     spec = case["d"]
     d = specs.build(spec, case["route"])
     n = len(spec["dom"])
-    inputs = tuple("x%d" % i for i in range(n))
+    inputs = input_values(n, case.get("vals"))
     raw = d(*inputs)
     got = tuplify(raw)
     ref = ref_call(spec, inputs)
@@ -75,12 +85,18 @@ def check_call(case):
 
 
 def enum_structural(tier):
-    for l in range(5):
-        for r in range(5):
-            yield {"kind": "swap", "l": l, "r": r}
-    for n in range(5):
-        yield {"kind": "copy", "n": n}
-        yield {"kind": "discard", "n": n}
+    for none in (0, 1, 2):   # 0: strings; 1, 2: None on every other wire
+        for l in range(5):
+            for r in range(5):
+                yield {"kind": "swap", "l": l, "r": r, "none": none}
+        for n in range(5):
+            yield {"kind": "copy", "n": n, "none": none}
+            yield {"kind": "discard", "n": n, "none": none}
+
+
+def with_none(xs, none):
+    return tuple(None if none and i % 2 == none - 1 else x
+                 for i, x in enumerate(xs))
 
 
 def check_structural(case):
@@ -89,19 +105,19 @@ def check_structural(case):
     if kind == "swap":
         l, r = case["l"], case["r"]
         d = cartesian.Swap(l, r)
-        xs = tuple("a%d" % i for i in range(l)) + tuple(
-            "b%d" % i for i in range(r))
+        xs = with_none(tuple("a%d" % i for i in range(l)) + tuple(
+            "b%d" % i for i in range(r)), case.get("none"))
         exp = xs[l:] + xs[:l]
         n = l + r
     elif kind == "copy":
         n = case["n"]
         d = cartesian.Copy(n)
-        xs = tuple("a%d" % i for i in range(n))
+        xs = with_none(tuple("a%d" % i for i in range(n)), case.get("none"))
         exp = xs + xs
     else:
         n = case["n"]
         d = cartesian.Discard(n)
-        xs = tuple("a%d" % i for i in range(n))
+        xs = with_none(tuple("a%d" % i for i in range(n)), case.get("none"))
         exp = ()
     specs.well_typed(d, kind)
     require(len(d.dom) == n and len(d.cod) == len(exp), "C19:types",
@@ -118,7 +134,9 @@ def naturality_cases(draw, tier):
                           min_boxes=1))
     g = draw(gen.diagrams("cartesian", max_boxes=3, max_width=4, max_dom=2,
                           min_boxes=1))
-    return {"f": f, "g": g}
+    vals = st.lists(st.sampled_from(["x", "x", "x", None, 1]), min_size=2,
+                    max_size=2)
+    return {"f": f, "g": g, "xs": draw(vals), "ys": draw(vals)}
 
 
 def check_naturality(case):
@@ -127,8 +145,8 @@ def check_naturality(case):
     f, g = specs.build(sf), specs.build(sg)
     nf, ng = len(sf["dom"]), len(sg["dom"])
     mf, mg = len(specs.spec_cod(sf)), len(specs.spec_cod(sg))
-    xs = tuple("x%d" % i for i in range(nf))
-    ys = tuple("y%d" % i for i in range(ng))
+    xs = input_values(nf, case.get("xs"))
+    ys = input_values(ng, case.get("ys"), "y")
     fx, gy = ref_call(sf, xs), ref_call(sg, ys)
     lhs = tuplify((f @ g >> cartesian.Swap(mf, mg))(*(xs + ys)))
     rhs = tuplify((cartesian.Swap(nf, ng) >> g @ f)(*(xs + ys)))
@@ -170,4 +188,7 @@ core.register("C19", [
           "counit law on the outputs of generated diagrams"),
 ], selftests=[selftest], rule=RULE, assumptions=[
     "boxes return a bare value for one output, () for none and a tuple "
-    "otherwise (the library's documented convention); inputs are strings"])
+    "otherwise (the library's documented convention), or a 1-tuple for one "
+    "output in the library's own `lambda *xs: tuple` style; inputs are "
+    "strings, numbers or None (any value except a tuple, which the "
+    "tuple-or-single-value convention cannot carry on one wire)"])
